@@ -27,6 +27,9 @@ type Env struct {
 	modulePath      string
 	initAllow       map[string]bool
 	loadSeconds     float64
+	// usesBufCap: some function of the module under test calls (*bytes.Buffer).Grow, Available or
+	// Cap; only then is the capacity of abstract buffers tracked (it costs a variable per write)
+	usesBufCap bool
 }
 
 var stdInitAllow = []string{
@@ -105,6 +108,44 @@ func LoadEnv(dir, pattern string, overlayFile string, tags string) (*Env, error)
 		return nil, fmt.Errorf("package errors not loaded")
 	}
 	e.runtimeErrT = e.errorStringPtrT
+	for _, p := range pkgs {
+		if p == nil || !strings.HasPrefix(p.Pkg.Path(), e.modulePath) {
+			continue
+		}
+		for _, mem := range p.Members {
+			var fns []*ssa.Function
+			switch mm := mem.(type) {
+			case *ssa.Function:
+				fns = append(fns, mm)
+			case *ssa.Type:
+				for _, T := range []types.Type{mm.Type(), types.NewPointer(mm.Type())} {
+					ms := prog.MethodSets.MethodSet(T)
+					for i := 0; i < ms.Len(); i++ {
+						if f := prog.MethodValue(ms.At(i)); f != nil {
+							fns = append(fns, f)
+						}
+					}
+				}
+			}
+			for len(fns) > 0 {
+				f := fns[0]
+				fns = fns[1:]
+				fns = append(fns, f.AnonFuncs...)
+				for _, b := range f.Blocks {
+					for _, in := range b.Instrs {
+						if c, ok := in.(ssa.CallInstruction); ok {
+							if callee := c.Common().StaticCallee(); callee != nil {
+								switch callee.String() {
+								case "(*bytes.Buffer).Grow", "(*bytes.Buffer).Available", "(*bytes.Buffer).Cap":
+									e.usesBufCap = true
+								}
+							}
+						}
+					}
+				}
+			}
+		}
+	}
 	e.loadSeconds = time.Since(t0).Seconds()
 	return e, nil
 }
